@@ -912,6 +912,7 @@ type modSet struct {
 	all     bool // unknown extent: havoc every heap
 	names   map[string]bool // heap names that may be written
 	mem     bool            // element memories (Mem$*) may be written
+	memSorts map[string]bool // ...restricted to these element memories (nil = all)
 	ghosts  bool            // ghost locals/fields may be written (hooks)
 	events  map[string]bool // "kind:target" events that may occur in the body
 	dynCall bool            // body calls through a function value (anything may happen)
@@ -959,6 +960,14 @@ func (ex *Exec) modified(nodes ...ast.Node) *modSet {
 			}
 			ms.heaps = true
 			ms.mem = true
+			if t := ex.typeOf(l.X); t != nil {
+				if sl, ok := t.Underlying().(*types.Slice); ok {
+					n, _ := ex.memName(sl.Elem())
+					ms.addMemSort(n)
+				} else {
+					ms.memAll()
+				}
+			}
 		case *ast.SelectorExpr:
 			ms.heaps = true
 			// struct value in a local
@@ -1080,6 +1089,30 @@ func (ex *Exec) ghostsWrittenBy(ms *modSet) map[string]bool {
 	return out
 }
 
+func (ms *modSet) addMemSort(n string) {
+	if ms.memSorts == nil {
+		ms.memSorts = map[string]bool{}
+	}
+	if !ms.memSorts["*"] {
+		ms.memSorts[n] = true
+	}
+}
+
+func (ms *modSet) memAll() { ms.memSorts = map[string]bool{"*": true} }
+
+func (ms *modSet) memHit(k string) bool {
+	if !ms.mem {
+		return false
+	}
+	if strings.HasPrefix(k, "Map$") || strings.HasPrefix(k, "Box$") {
+		return ms.memSorts == nil || ms.memSorts["*"]
+	}
+	if !strings.HasPrefix(k, "Mem$") {
+		return false
+	}
+	return ms.memSorts == nil || ms.memSorts["*"] || ms.memSorts[k]
+}
+
 // callMods records which heaps a call may write, consistently with the frame
 // assumptions made at call sites.
 func (ex *Exec) callMods(c *ast.CallExpr, ms *modSet) {
@@ -1087,14 +1120,25 @@ func (ex *Exec) callMods(c *ast.CallExpr, ms *modSet) {
 	if id, ok := fun.(*ast.Ident); ok {
 		if b, ok := ex.Info.ObjectOf(id).(*types.Builtin); ok {
 			switch b.Name() {
-			case "append", "copy", "make", "new":
+			case "append", "copy", "make":
 				ms.mem = true
+				if len(c.Args) > 0 {
+					if t := ex.typeOf(c.Args[0]); t != nil {
+						if sl, ok := t.Underlying().(*types.Slice); ok {
+							n, _ := ex.memName(sl.Elem())
+							ms.addMemSort(n)
+							return
+						}
+					}
+				}
+				ms.memAll()
 			}
 			return
 		}
 	}
 	if tv, ok := ex.Info.Types[c.Fun]; ok && tv.IsType() {
-		ms.mem = true // conversions may allocate
+		ms.mem = true // conversions may allocate byte memory
+		ms.addMemSort("Mem$" + smtName(SByte))
 		return
 	}
 	fn := ex.calleeOf(c)
@@ -1112,14 +1156,20 @@ func (ex *Exec) callMods(c *ast.CallExpr, ms *modSet) {
 	}
 	if libWriters[key] {
 		ms.mem = true
+		ms.addMemSort("Mem$" + smtName(SByte))
 	}
 	if _, ok := libModels[key]; ok {
 		ms.mem = true
+		ms.addMemSort("Mem$" + smtName(SByte))
+		if key == "bytes.Split" {
+			ms.addMemSort("Mem$" + smtName(SSlice))
+		}
 	}
 	if fs, _ := ex.lookupFuncSpec(fn); fs != nil {
 		for _, m := range fs.Modifies {
 			if strings.HasPrefix(m, "Mem(") {
 				ms.mem = true
+				ms.memAll()
 			} else {
 				ms.all = true
 			}
@@ -1235,7 +1285,7 @@ func (ex *Exec) havocLoop(st *State, ms *modSet) {
 					}
 				}
 			}
-			if ms.all || ms.names[k] || isGhostField || (ms.mem && (strings.HasPrefix(k, "Mem$") || strings.HasPrefix(k, "Map$") || strings.HasPrefix(k, "Box$"))) {
+			if ms.all || ms.names[k] || isGhostField || ms.memHit(k) {
 				ex.havocHeap(st, k)
 			}
 		}
